@@ -285,7 +285,7 @@ func main() {
 		runCase(wrap.Replay.Case, args, sim.NewRand(wrap.Replay.Seed), wrap.Replay.Graph, st, v, root)
 		os.Exit(v.Write())
 	}
-	total := args.Pick(600, 12000)
+	total := args.Pick(2400, 24000)
 	lo, hi := args.Share(total)
 	for i := lo; i < hi; i++ {
 		r := args.CaseRand(i)
